@@ -531,6 +531,8 @@ class Interp(object):
         self.resolved_calls = 0
         self.notes = []
 
+    frame_cls = None     # hook: a rule may substitute a Frame subclass (e.g. path-exact loops) for the top-level function
+
     # ------------------------------------------------------------------ entry
     def run(self, fi, self_val=None, args=None, depth=0):
         """Interpret function `fi`.  Returns list of final States (one per path)."""
@@ -567,7 +569,7 @@ class Interp(object):
         if depth == 0:
             for k, v in self.sc.bind.items():
                 st.env[k] = v
-        frame = Frame(self, fi, depth)
+        frame = (self.frame_cls or Frame)(self, fi, depth)
         outs = frame.block(node.body, st)
         finals = []
         for s, status in outs:
@@ -1029,6 +1031,10 @@ class Frame(object):
                 new = base.env.get(name)
                 if isinstance(new, ListV) and len(new.elems) > len(old.elems):
                     base.env[name] = ListV(old.elems + [EachV(vartext, colltext, new.elems[len(old.elems):])], old.kind)
+            elif isinstance(old, Const) and type(old.value) is int and target is not None and ' if ' not in colltext and \
+                    len(body) == 1 and body[0][1] == 'normal' and render(base.env.get(name)) == '(%d + %s)' % (old.value, vartext):
+                # acc = k; for x in C: acc += x   is   k + sum(C)
+                base.env[name] = Sym('sum(%s)' % colltext) if old.value == 0 else Sym('(%d + sum(%s))' % (old.value, colltext))
             elif isinstance(old, Const) and isinstance(old.value, str) and target is not None:
                 # text accumulated in a loop (s += piece): s + ''.join(piece for ...), if every path of the body appends the same piece
                 pre = '(%s + ' % render(old)
@@ -1146,6 +1152,9 @@ class Frame(object):
         if isinstance(test, ast.Compare) and len(test.ops) == 1:
             return ('cmp', OPS[type(test.ops[0])], self.text(test.left, st), self.text(test.comparators[0], st))
         if isinstance(test, ast.Call):
+            sk = getattr(self.ev(test, st, quiet=True), 'skel', None)
+            if sk is not None:           # an inlined helper returning a comparison / a boolean combination
+                return sk
             ft = self.text(test.func, st)
             args = [self.text(a, st) for a in test.args]
             return ('call', ft, args)
@@ -1744,6 +1753,16 @@ class Frame(object):
 
     # ------------------------------------------------------------------ calls
     def ev_Call(self, node, st):
+        r = self._ev_Call(node, st)
+        if type(r) is Sym and not node.keywords and getattr(r, 'skel', None) is None:
+            for c in reversed(st.calls):
+                if c[4] is node:
+                    if r.text == '%s(%s)' % (c[0], ', '.join(c[1])):
+                        r.skel = ('call', c[0], list(c[1]))
+                    break
+        return r
+
+    def _ev_Call(self, node, st):
         func = node.func
         args = [self.ev(a, st) for a in node.args]
         kwargs = {}
@@ -1964,6 +1983,8 @@ class Frame(object):
                         return Const(sum(len(i[1]) for i in its))
                 if isinstance(a, ListV):
                     return Const(len(a.elems))
+                if isinstance(a, Const) and isinstance(a.value, (bytes, bytearray, str, tuple, list)):
+                    return Const(len(a.value))
                 lcls = a.cls if isinstance(a, (Sym, Obj)) else None
                 lfi = lcls.find_method('__len__') if lcls is not None else None
                 if lfi is not None and self.sc.inline is not None and self.sc.inline(lfi):
